@@ -6,7 +6,7 @@
        returned are, as a bag, the rows SQL defines -- under every memory budget.
    Evaluated by vm_compute; definitions only. *)
 From Coq Require Import ZArith List Bool.
-From TV Require Export Model.SqlSpec Model.JoinSpec Model.JoinExec Model.JoinHw.
+From TV Require Export Model.SqlSpec Model.JoinSpec Model.JoinExec Model.JoinHw Model.JoinInl.
 Import ListNotations.
 Open Scope Z_scope.
 
@@ -19,8 +19,8 @@ Inductive case :=
        (L R : list hrow) (o : obs)
 (* one SELECT under PRAGMA join_memory_budget = 1 KiB, 4 KiB, 64 KiB, 10 MiB: same = the four results are
    identical (then `outs` holds one of them), otherwise `outs` holds all four; qual = column names were
-   printed table-qualified *)
-| Sql (q : query) (qual : bool) (same : bool) (outs : list obs).
+   printed table-qualified; idx = the secondary indexes created on the tables (table number, unique, columns) *)
+| Sql (q : query) (qual : bool) (idx : list index) (same : bool) (outs : list obs).
 
 Definition rows_are (o : obs) (t : table) : bool := match o with ORows r => bag_eqb r t | _ => false end.
 
@@ -38,6 +38,7 @@ Definition hw_agrees (m : hout) (o : obs) : bool :=
   | HPanic => match o with OPanic => true | _ => false end
   | HUnmod => false
   | HBlack => match o with OBad => false | _ => true end
+  | HErr => match o with OErr => true | _ => false end
   end.
 Definition outs_shape (same : bool) (outs : list obs) : bool :=
   if same then (length outs =? 1)%nat else (length outs =? 4)%nat.
@@ -45,9 +46,9 @@ Definition outs_shape (same : bool) (outs : list obs) : bool :=
 Definition model_agrees (c : case) : bool :=
   match c with
   | Exec a jt n spill sw lk rk lw rw L R o => exec_agrees (exec_model a jt n spill sw lk rk lw rw L R) o
-  | Sql q qual same outs =>
+  | Sql q qual idx same outs =>
       (* the hand-written path never reads the budget: the model predicts the same bag for all four *)
-      let m := hw_model q qual in outs_shape same outs && forallb (hw_agrees m) outs
+      let m := sql_model q qual idx in outs_shape same outs && forallb (hw_agrees m) outs
   end.
 
 (* ------------------------------------------------------------------ spec_ok *)
@@ -65,7 +66,7 @@ Definition spec_ok (c : case) : bool :=
       if exec_spec_demands a jt n sw lk rk && on_defined e Lr Rr
       then rows_are o (join_rows (exec_jt a jt) lw rw (on_tt e) Lr Rr)
       else true
-  | Sql q _ same outs =>
+  | Sql q _ _ same outs =>
       match query_spec q with
       | Some t => outs_shape same outs && forallb (fun o => rows_are o t) outs
       | None => true
@@ -86,7 +87,7 @@ Definition cls_exec (a : algo) (lk rk : list nat) (lw : nat) (L R : list hrow) :
 Definition known_class (c : case) : Z :=
   match c with
   | Exec a jt n spill sw lk rk lw rw L R o => cls_exec a lk rk lw L R
-  | Sql q qual _ _ => cls_sql q qual
+  | Sql q qual idx _ _ => cls_all q qual idx
   end.
 
 Fixpoint failures_from (i : Z) (cs : list case) : list (Z * bool * bool * Z) :=
